@@ -96,6 +96,9 @@ func Run(j Job) (*Result, error) {
 	if j.Timeout == 0 {
 		j.Timeout = 10 * time.Minute
 	}
+	// the limits only stop a run-away model; on a machine that is busy with other checks a model that takes
+	// 25 minutes alone (Scan_Commits5: 7.8e6 states) must not end as "could not decide"
+	j.Timeout *= 6
 	dir, err := os.MkdirTemp("", "verif-tlc-")
 	if err != nil {
 		return nil, err
